@@ -451,6 +451,15 @@ func (ec *evalCtx) evalBinary(x *ast.BinaryExpr) (Value, types.Type) {
 		case isNilT(at):
 			eq = sEq(b.C[0], "0")
 		default:
+			_, ai := at.Underlying().(*types.Interface)
+			_, bi := bt.Underlying().(*types.Interface)
+			if ai && !bi {
+				b = vc.makeIface(b, bt)
+				bt = at
+			} else if bi && !ai {
+				a = vc.makeIface(a, at)
+				at = bt
+			}
 			eq = vc.valuesEqual(a, b, at, bt)
 		}
 		if x.Op == token.NEQ {
@@ -577,8 +586,15 @@ func (ec *evalCtx) evalAddr(e ast.Expr) (Value, types.Type) {
 			}
 		}
 	case *ast.Ident:
-		// address-taken local or global
+		// address-taken local, captured variable or global
 		if ec.fr != nil {
+			if _, shadow := ec.qvars[x.Name]; !shadow {
+				for _, fv := range ec.fr.fn.FreeVars {
+					if fv.Name() == x.Name {
+						return ec.fr.val(fv), fv.Type().(*types.Pointer).Elem()
+					}
+				}
+			}
 			if a, ok := ec.fr.names["&"+x.Name]; ok {
 				return ec.fr.val(a), a.Type().(*types.Pointer).Elem()
 			}
@@ -669,24 +685,7 @@ func (ec *evalCtx) evalSelector(x *ast.SelectorExpr) (Value, types.Type) {
 	vc := ec.vc
 	if id, ok := x.X.(*ast.Ident); ok {
 		if id.Name == "ghost" {
-			g, ok := vc.eng.cs.Ghosts[x.Sel.Name]
-			if !ok {
-				ec.fail("undeclared ghost %s", x.Sel.Name)
-			}
-			if g.GoType != "" {
-				gt := vc.eng.ghostGoType(g)
-				if gt == nil {
-					ec.fail("ghost %s: cannot resolve type %s", g.Name, g.GoType)
-				}
-				cs := comps(gt)
-				out := Value{C: make([]Term, len(cs))}
-				for i, c := range cs {
-					out.C[i] = vc.get(ec.cur, "ghost."+g.Name+c.Suffix, c.Sort)
-				}
-				return out, gt
-			}
-			t := vc.get(ec.cur, "ghost."+g.Name, g.Sort)
-			return Value{C: []Term{t}}, ghostType(g.Sort)
+			return ec.ghostValue(x.Sel.Name)
 		}
 		if ec.isPkgName(id.Name) {
 			for _, imp := range ec.pkg.Imports() {
@@ -720,10 +719,18 @@ func (ec *evalCtx) evalSelector(x *ast.SelectorExpr) (Value, types.Type) {
 	return Value{}, nil
 }
 
-type ghostArr struct{ types.Type }
+// ghostArrT is the type of a (partially indexed) ghost array.
+type ghostArrT struct {
+	decl *GhostDecl
+	left int
+	elem types.Type
+}
 
-func ghostType(sort string) types.Type {
-	switch sort {
+func (g *ghostArrT) Underlying() types.Type { return g }
+func (g *ghostArrT) String() string         { return "ghost array " + g.decl.Name }
+
+func (e *Engine) ghostElemType(g *GhostDecl) types.Type {
+	switch g.Sort {
 	case "Int":
 		return tUntypedInt
 	case "Bool":
@@ -731,26 +738,52 @@ func ghostType(sort string) types.Type {
 	case "Real":
 		return tReal
 	}
-	return types.NewMap(types.Typ[types.Int], types.Typ[types.Int]) // array sorts: index with [..]
+	return e.ghostGoType(g)
+}
+
+func ghostSort(elemSort string, dims int) string {
+	s := elemSort
+	for i := 0; i < dims; i++ {
+		s = "(Array Int " + s + ")"
+	}
+	return s
+}
+
+func (ec *evalCtx) ghostValue(name string) (Value, types.Type) {
+	vc := ec.vc
+	g, ok := vc.eng.cs.Ghosts[name]
+	if !ok {
+		ec.fail("undeclared ghost %s", name)
+	}
+	et := vc.eng.ghostElemType(g)
+	if et == nil {
+		ec.fail("ghost %s: cannot resolve type %s", g.Name, g.GoType)
+	}
+	cs := comps(et)
+	out := Value{C: make([]Term, len(cs))}
+	for i, c := range cs {
+		out.C[i] = vc.get(ec.cur, "ghost."+g.Name+c.Suffix, ghostSort(c.Sort, g.Dims))
+	}
+	if g.Dims == 0 {
+		return out, et
+	}
+	return out, &ghostArrT{g, g.Dims, et}
 }
 
 func (ec *evalCtx) evalIndex(x *ast.IndexExpr) (Value, types.Type) {
 	vc := ec.vc
-	// ghost array
-	if sel, ok := x.X.(*ast.SelectorExpr); ok {
-		if id, ok := sel.X.(*ast.Ident); ok && id.Name == "ghost" {
-			g, ok := vc.eng.cs.Ghosts[sel.Sel.Name]
-			if !ok {
-				ec.fail("undeclared ghost %s", sel.Sel.Name)
-			}
-			a := vc.get(ec.cur, "ghost."+g.Name, g.Sort)
-			i, _ := ec.eval(x.Index)
-			inner := strings.TrimSuffix(strings.TrimPrefix(g.Sort, "(Array Int "), ")")
-			return Value{C: []Term{sSel(a, i.C[0])}}, ghostType(inner)
-		}
-	}
 	v, t := ec.eval(x.X)
 	i, _ := ec.eval(x.Index)
+	if ga, ok := t.(*ghostArrT); ok {
+		out := Value{C: make([]Term, len(v.C))}
+		for k := range v.C {
+			out.C[k] = sSel(v.C[k], i.C[0])
+		}
+		if ga.left == 1 {
+			return out, ga.elem
+		}
+		return out, &ghostArrT{ga.decl, ga.left - 1, ga.elem}
+	}
 	switch u := t.Underlying().(type) {
 	case *types.Slice:
 		p := vc.elemPtr(v.C[0], iAdd(v.C[1], i.C[0]), u.Elem())
@@ -871,7 +904,9 @@ func (ec *evalCtx) evalCall(x *ast.CallExpr) (Value, types.Type) {
 		qn := sym(fmt.Sprintf("%s!q%d", id.Name, vc.nfresh))
 		saved, had := ec.qvars[id.Name]
 		ec.qvars[id.Name] = bound{Value{C: []Term{qn}}, types.Typ[types.Int]}
+		vc.inQuant++
 		body, _ := arg(3)
+		vc.inQuant--
 		if had {
 			ec.qvars[id.Name] = saved
 		} else {
@@ -893,6 +928,20 @@ func (ec *evalCtx) evalCall(x *ast.CallExpr) (Value, types.Type) {
 			eqs = append(eqs, sEq(a.C[i], b.C[i]))
 		}
 		return Value{C: []Term{sAnd(eqs...)}}, tBool
+	case "typeis":
+		// typeis(x, T): the dynamic type of interface value x is exactly T
+		v, t := arg(0)
+		if _, ok := t.Underlying().(*types.Interface); !ok {
+			ec.fail("typeis of non-interface")
+		}
+		if len(x.Args) != 2 {
+			ec.fail("typeis(x, T)")
+		}
+		tv, err := types.Eval(vc.eng.fset, ec.pkg, token.NoPos, types.ExprString(x.Args[1]))
+		if err != nil || tv.Type == nil {
+			ec.fail("typeis: cannot resolve type %s", types.ExprString(x.Args[1]))
+		}
+		return Value{C: []Term{sEq(v.C[0], sInt(int64(vc.eng.typeId(tv.Type))))}}, tBool
 	case "typeof":
 		v, t := arg(0)
 		if _, ok := t.Underlying().(*types.Interface); !ok {
@@ -995,137 +1044,298 @@ func (ec *evalCtx) evalCall(x *ast.CallExpr) (Value, types.Type) {
 // ---------------------------------------------------------------------
 // modifies clauses
 
-func (fr *Frame) havocLoc(m string, pkg *types.Package, env map[string]bound, st, old *State) error {
+// A locRef names a set of heap cells: family Key (with component suffix), of
+// full sort Sort, at index path Idx (shorter than the family's dimension =
+// the whole sub-array).
+type locRef struct {
+	Key  string
+	Sort string
+	Idx  []Term
+	All  bool // everything (modifies heap)
+}
+
+func sortDims(sort string) (dims int, elem string) {
+	for strings.HasPrefix(sort, "(Array Int ") {
+		dims++
+		sort = sort[len("(Array Int ") : len(sort)-1]
+	}
+	return dims, sort
+}
+
+// locsOfPtr: the cells of a value of type t stored at pointer p
+func (vc *VC) locsOfPtr(p Value, t types.Type) []locRef {
+	var out []locRef
+	if s, ok := isStruct(t); ok {
+		for i := 0; i < s.NumFields(); i++ {
+			out = append(out, vc.locsOfPtr(vc.fieldPtr(p, t, i), s.Field(i).Type())...)
+		}
+		return out
+	}
+	if a, ok := isArray(t); ok {
+		ek := "M." + typeKey(a.Elem())
+		for _, c := range comps(a.Elem()) {
+			out = append(out, locRef{Key: ek + c.Suffix, Sort: "(Array Int (Array Int " + c.Sort + "))", Idx: []Term{p.C[0]}})
+		}
+		return out
+	}
+	sh := p.Sh
+	if sh == nil {
+		sh = &Shape{Kind: ShCell, Key: "C." + typeKey(t), Base: p.C[0], Typ: t}
+	}
+	for _, c := range comps(t) {
+		switch sh.Kind {
+		case ShCell, ShField:
+			out = append(out, locRef{Key: sh.Key + c.Suffix, Sort: "(Array Int " + c.Sort + ")", Idx: []Term{sh.Base}})
+		case ShElem:
+			out = append(out, locRef{Key: sh.Key + c.Suffix, Sort: "(Array Int (Array Int " + c.Sort + "))", Idx: []Term{sh.Base, sh.Idx}})
+		case ShGlobal:
+			out = append(out, locRef{Key: sh.Key + c.Suffix, Sort: c.Sort})
+		}
+	}
+	return out
+}
+
+// resolveLoc turns a modifies entry into cell sets, evaluated in state st.
+func (fr *Frame) resolveLoc(m string, pkg *types.Package, env map[string]bound, st, old *State) (out []locRef, err error) {
 	vc := fr.vc
 	m = strings.TrimSpace(m)
 	if m == "heap" {
-		vc.havocAll(st)
-		return nil
+		return []locRef{{All: true}}, nil
 	}
 	if m == "nothing" || m == "" {
-		return nil
+		return nil, nil
 	}
 	lookup := func(name string, _ *State) (bound, bool) { b, ok := env[name]; return b, ok }
 	if env == nil {
 		lookup = fr.frameLookup(nil)
 	}
 	ec := &evalCtx{vc: vc, fr: fr, pkg: pkg, lookup: lookup, cur: st, old: old, qvars: map[string]bound{}}
-	var err error
-	func() {
-		defer func() {
-			if r := recover(); r != nil {
-				if ee, ok := r.(evalErr); ok {
-					err = fmt.Errorf("%s", ee.msg)
-					return
-				}
-				panic(r)
-			}
-		}()
-		if strings.HasPrefix(m, "ghost.") {
-			rest := strings.TrimPrefix(m, "ghost.")
-			name := rest
-			idx := ""
-			if i := strings.Index(rest, "["); i >= 0 {
-				name = rest[:i]
-				idx = strings.TrimSuffix(rest[i+1:], "]")
-			}
-			g, ok := vc.eng.cs.Ghosts[name]
-			if !ok {
-				ec.fail("undeclared ghost %s", name)
-			}
-			if g.GoType != "" {
-				gt := vc.eng.ghostGoType(g)
-				if gt == nil {
-					ec.fail("ghost %s: cannot resolve type %s", g.Name, g.GoType)
-				}
-				nv := vc.freshValue("ghost."+name, gt, st)
-				for i, c := range comps(gt) {
-					vc.famSort["ghost."+name+c.Suffix] = c.Sort
-					st.heap["ghost."+name+c.Suffix] = nv.C[i]
-				}
+	defer func() {
+		if r := recover(); r != nil {
+			if ee, ok := r.(evalErr); ok {
+				err = fmt.Errorf("%s", ee.msg)
 				return
 			}
-			cur := vc.get(st, "ghost."+name, g.Sort)
-			if idx == "" || idx == "*" {
-				n := vc.fresh("ghost."+name, g.Sort)
-				st.heap["ghost."+name] = n
-				return
-			}
-			e, perr := parseContractExpr(idx)
-			if perr != nil {
-				ec.fail("%v", perr)
-			}
-			iv, _ := ec.eval(e)
-			inner := strings.TrimSuffix(strings.TrimPrefix(g.Sort, "(Array Int "), ")")
-			vc.set(st, "ghost."+name, g.Sort, sStore(cur, iv.C[0], vc.fresh("ghost."+name+".elem", inner)))
-			return
+			panic(r)
 		}
-		if strings.HasSuffix(m, "[*]") {
-			e, perr := parseContractExpr(strings.TrimSuffix(m, "[*]"))
-			if perr != nil {
-				ec.fail("%v", perr)
-			}
-			v, t := ec.eval(e)
-			switch u := t.Underlying().(type) {
-			case *types.Slice:
-				ek := "M." + typeKey(u.Elem())
-				for _, c := range comps(u.Elem()) {
-					srt := "(Array Int (Array Int " + c.Sort + "))"
-					a := vc.get(st, ek+c.Suffix, srt)
-					fa := vc.fresh("havoc"+c.Suffix, "(Array Int "+c.Sort+")")
-					vc.set(st, ek+c.Suffix, srt, sStore(a, v.C[0], fa))
-				}
-			case *types.Map:
-				fam := mapFam(t)
-				for _, c := range comps(u.Elem()) {
-					srt := "(Array Int (Array Int " + c.Sort + "))"
-					a := vc.get(st, fam+".val"+c.Suffix, srt)
-					vc.set(st, fam+".val"+c.Suffix, srt, sStore(a, v.C[0], vc.fresh("havoc", "(Array Int "+c.Sort+")")))
-				}
-				hs := "(Array Int (Array Int Bool))"
-				a := vc.get(st, fam+".has", hs)
-				vc.set(st, fam+".has", hs, sStore(a, v.C[0], vc.fresh("havoc", "(Array Int Bool)")))
-				cn := vc.get(st, fam+".count", "(Array Int Int)")
-				nc := vc.fresh("havoc.count", "Int")
-				vc.assumeAlways("(<= 0 " + nc + ")")
-				vc.set(st, fam+".count", "(Array Int Int)", sStore(cn, v.C[0], nc))
-			case *types.Pointer:
-				if at, ok := u.Elem().Underlying().(*types.Array); ok {
-					ek := "M." + typeKey(at.Elem())
-					for _, c := range comps(at.Elem()) {
-						srt := "(Array Int (Array Int " + c.Sort + "))"
-						a := vc.get(st, ek+c.Suffix, srt)
-						vc.set(st, ek+c.Suffix, srt, sStore(a, v.C[0], vc.fresh("havoc", "(Array Int "+c.Sort+")")))
-					}
-					return
-				}
-				ec.fail("[*] on %s", t)
-			default:
-				ec.fail("[*] on %s", t)
-			}
-			return
+	}()
+	isGhostLoc := func() bool {
+		if !strings.HasPrefix(m, "ghost.") {
+			return false
 		}
-		if strings.HasSuffix(m, ".*") {
-			e, perr := parseContractExpr(strings.TrimSuffix(m, ".*"))
-			if perr != nil {
-				ec.fail("%v", perr)
-			}
-			v, t := ec.eval(e)
-			pt, ok := t.Underlying().(*types.Pointer)
+		e, perr := parseContractExpr(strings.TrimSuffix(m, "[*]"))
+		if perr != nil {
+			return false
+		}
+		for {
+			ix, ok := e.(*ast.IndexExpr)
 			if !ok {
-				ec.fail(".* needs a pointer to struct")
+				break
 			}
-			nv := vc.freshValue("havoc", pt.Elem(), st)
-			vc.store(st, v, pt.Elem(), nv)
-			return
+			e = ix.X
 		}
-		e, perr := parseContractExpr(m)
+		sel, ok := e.(*ast.SelectorExpr)
+		if !ok {
+			return false
+		}
+		id, ok := sel.X.(*ast.Ident)
+		return ok && id.Name == "ghost"
+	}
+	if isGhostLoc() {
+		text := strings.TrimSuffix(m, "[*]")
+		e, perr := parseContractExpr(text)
 		if perr != nil {
 			ec.fail("%v", perr)
 		}
-		p, t := ec.evalAddr(e)
-		nv := vc.freshValue("havoc."+m, t, st)
-		vc.store(st, p, t, nv)
-	}()
-	return err
+		var idxs []Term
+		for {
+			ix, ok := e.(*ast.IndexExpr)
+			if !ok {
+				break
+			}
+			iv, _ := ec.eval(ix.Index)
+			idxs = append([]Term{iv.C[0]}, idxs...)
+			e = ix.X
+		}
+		sel, ok := e.(*ast.SelectorExpr)
+		if !ok {
+			ec.fail("bad ghost location %s", m)
+		}
+		g, ok := vc.eng.cs.Ghosts[sel.Sel.Name]
+		if !ok {
+			ec.fail("undeclared ghost %s", sel.Sel.Name)
+		}
+		et := vc.eng.ghostElemType(g)
+		if et == nil {
+			ec.fail("ghost %s: cannot resolve type", g.Name)
+		}
+		for _, c := range comps(et) {
+			out = append(out, locRef{Key: "ghost." + g.Name + c.Suffix, Sort: ghostSort(c.Sort, g.Dims), Idx: idxs})
+		}
+		return out, nil
+	}
+	if strings.HasSuffix(m, "[*]") {
+		e, perr := parseContractExpr(strings.TrimSuffix(m, "[*]"))
+		if perr != nil {
+			ec.fail("%v", perr)
+		}
+		v, t := ec.eval(e)
+		switch u := t.Underlying().(type) {
+		case *types.Slice:
+			ek := "M." + typeKey(u.Elem())
+			if _, isS := isStruct(u.Elem()); isS {
+				ec.fail("[*] on a slice of structs is not supported")
+			}
+			for _, c := range comps(u.Elem()) {
+				out = append(out, locRef{Key: ek + c.Suffix, Sort: "(Array Int (Array Int " + c.Sort + "))", Idx: []Term{v.C[0]}})
+			}
+		case *types.Map:
+			fam := mapFam(t)
+			for _, c := range comps(u.Elem()) {
+				out = append(out, locRef{Key: fam + ".val" + c.Suffix, Sort: "(Array Int (Array Int " + c.Sort + "))", Idx: []Term{v.C[0]}})
+			}
+			out = append(out, locRef{Key: fam + ".has", Sort: "(Array Int (Array Int Bool))", Idx: []Term{v.C[0]}})
+			out = append(out, locRef{Key: fam + ".count", Sort: "(Array Int Int)", Idx: []Term{v.C[0]}})
+		case *types.Pointer:
+			at, ok := u.Elem().Underlying().(*types.Array)
+			if !ok {
+				ec.fail("[*] on %s", t)
+			}
+			ek := "M." + typeKey(at.Elem())
+			for _, c := range comps(at.Elem()) {
+				out = append(out, locRef{Key: ek + c.Suffix, Sort: "(Array Int (Array Int " + c.Sort + "))", Idx: []Term{v.C[0]}})
+			}
+		default:
+			ec.fail("[*] on %s", t)
+		}
+		return out, nil
+	}
+	if strings.HasSuffix(m, ".*") {
+		e, perr := parseContractExpr(strings.TrimSuffix(m, ".*"))
+		if perr != nil {
+			ec.fail("%v", perr)
+		}
+		v, t := ec.eval(e)
+		pt, ok := t.Underlying().(*types.Pointer)
+		if !ok {
+			ec.fail(".* needs a pointer to struct")
+		}
+		return vc.locsOfPtr(v, pt.Elem()), nil
+	}
+	e, perr := parseContractExpr(m)
+	if perr != nil {
+		ec.fail("%v", perr)
+	}
+	p, t := ec.evalAddr(e)
+	return vc.locsOfPtr(p, t), nil
+}
+
+func (fr *Frame) havocLoc(m string, pkg *types.Package, env map[string]bound, st, old *State) error {
+	vc := fr.vc
+	locs, err := fr.resolveLoc(m, pkg, env, old, old)
+	if err != nil {
+		return err
+	}
+	for _, l := range locs {
+		if l.All {
+			vc.havocAll(st)
+			continue
+		}
+		cur := vc.get(st, l.Key, l.Sort)
+		dims, elem := sortDims(l.Sort)
+		leaf := vc.fresh("havoc."+l.Key, ghostSort(elem, dims-len(l.Idx)))
+		var upd func(a Term, ix []Term) Term
+		upd = func(a Term, ix []Term) Term {
+			if len(ix) == 0 {
+				return leaf
+			}
+			return sStore(a, ix[0], upd(sSel(a, ix[0]), ix[1:]))
+		}
+		vc.set(st, l.Key, l.Sort, upd(cur, l.Idx))
+	}
+	return nil
+}
+
+// frameObligations: everything the function changed must be covered by its modifies clauses.
+// The universally quantified statement "cells outside the frame are unchanged" is checked in
+// skolemised form (one fresh index constant per dimension), so the query is quantifier free.
+func (fr *Frame) frameObligations(c *Contract, exit *State, kind string) error {
+	vc := fr.vc
+	// "havoc": the function may change any ordinary memory (it calls unknown code), but the
+	// ghost state it changes must still be listed: callers keep ghost state across the call.
+	ghostOnly := c.Flags["havoc"] != ""
+	var allowed []locRef
+	for _, m := range c.Modifies {
+		locs, err := fr.resolveLoc(m, fr.fn.Pkg.Pkg, nil, fr.entry, fr.entry)
+		if err != nil {
+			return fmt.Errorf("%s:%d: modifies %s: %v", c.File, c.Line, m, err)
+		}
+		for _, l := range locs {
+			if l.All {
+				return nil
+			}
+		}
+		allowed = append(allowed, locs...)
+	}
+	if exit.epoch != 0 && !ghostOnly {
+		// unknown code ran: the frame cannot be established
+		vc.oblige(exit, kind, "unknown_code_ran_but_contract_does_not_say_havoc", "false", fr.fn.Pos(), "")
+		return nil
+	}
+	keys := make([]string, 0, len(exit.heap))
+	for k := range exit.heap {
+		keys = append(keys, k)
+	}
+	sortStrings(keys)
+	for _, k := range keys {
+		srt := vc.famSort[k]
+		entry := vc.famName(k, 0)
+		if exit.heap[k] == entry {
+			continue
+		}
+		if ghostOnly && !strings.HasPrefix(k, "ghost.") {
+			continue
+		}
+		if strings.HasPrefix(k, "S.") || strings.HasPrefix(k, "GI.") {
+			continue
+		}
+		vc.declare(entry, srt)
+		dims, _ := sortDims(srt)
+		var sk []Term
+		for i := 0; i < dims; i++ {
+			sk = append(sk, vc.fresh("frame.r", "Int"))
+		}
+		a, b := exit.heap[k], entry
+		for _, r := range sk {
+			a, b = sSel(a, r), sSel(b, r)
+		}
+		var alts []Term
+		alts = append(alts, sEq(a, b))
+		for _, l := range allowed {
+			if l.Key != k {
+				continue
+			}
+			var eqs []Term
+			for i, ix := range l.Idx {
+				eqs = append(eqs, sEq(sk[i], ix))
+			}
+			alts = append(alts, sAnd(eqs...))
+		}
+		// objects allocated by this activation are invisible to the caller
+		if dims > 0 {
+			for _, al := range vc.allocs {
+				alts = append(alts, sEq(sk[0], al.ref))
+			}
+		}
+		vc.oblige(exit, kind, k, sOr(alts...), fr.fn.Pos(), "modifies "+strings.Join(c.Modifies, ", "))
+	}
+	return nil
+}
+
+func sortStrings(s []string) {
+	for i := 1; i < len(s); i++ {
+		for j := i; j > 0 && s[j] < s[j-1]; j-- {
+			s[j], s[j-1] = s[j-1], s[j]
+		}
+	}
 }
